@@ -7,6 +7,7 @@ from common import ROOT, SG, VMON, new_report, add_violation, count
 CPU_LIMIT = 10
 SRC = {
     'a.js': 'foo(abc, 12);\nlet x = [1, 2, 3];\nfunction f(a) { return a + 1 }\n',
+    'a2.js': "foo(cafÉ, aÉÈ_b);\r\nlet ÀÉcole = [naïveCafÉ, 'ÀÉ', `t${x}É`];\r\n\tfoo(ÉÉa, 1)\n",
     'b.py': 'def f(a):\n    return foo(a, 12)\n',
     'c.rs': 'fn m() { foo(abc, 12); }\n',
     'd.go': 'package m\nfunc m() { foo(abc, 12) }\n',
@@ -116,6 +117,9 @@ def cases(seed, a, b):
 WILD = ['', '~', '[]', '{}', '1', 'nope', '../..', '/dev/null', 'é', '- a', 'a: b', '"', '***']
 
 
+LIST_WILD = ['[]', '[]', '[[]]', "['']", '[~]', '[1]', '[nope, rules]', '[rules, rules]', "['../..']", '[{}]', '[{testDir: nope}]', '[{testDir: tests, snapshotDir: ""}]']
+
+
 def project_variants(rng):
     """(files, argv, description) for project-config and test-file inputs"""
     good_rule = 'id: r1\nlanguage: JavaScript\nrule: {pattern: "foo($A, $B)"}\nfix: "bar($A)"\n'
@@ -130,6 +134,20 @@ def project_variants(rng):
         'ruleDirs: [rules]\nlanguageInjections: ' + rng.choice(["[]", "[{hostLanguage: js, rule: {pattern: a}, injected: css}]", "[{hostLanguage: nope}]", "1"]) + '\n',
         'ruleDirs: [nonexistent]\n', '', '{', 'ruleDirs: [rules]\nbogus: 1\n', 'ruleDirs:\n  - rules\n  - rules\n',
     ]
+    # every key of the project config: absent, well-formed, or a wild value of another shape
+    good = {'ruleDirs': '[rules]', 'utilDirs': '[utils]', 'testConfigs': '[{testDir: tests}]', 'languageGlobs': "{js: ['*.foo']}",
+            'languageInjections': '[{hostLanguage: js, rule: {pattern: "styled`$A`"}, injected: css}]', 'customLanguages': '{}'}
+    for _ in range(8):
+        # a well-formed config with exactly one key perturbed (so that loading gets as far as that key)
+        victim = rng.choice(list(good))
+        lines = []
+        for k, g in good.items():
+            if k == victim:
+                lines.append(f'{k}: {rng.choice(LIST_WILD if k.endswith(("Dirs", "Configs", "Injections")) else WILD)}')
+            elif k in ('ruleDirs', 'testConfigs') or rng.random() < 0.5:
+                lines.append(f'{k}: {g}')
+        rng.shuffle(lines)
+        cfgs.append('\n'.join(lines) + '\n')
     tests = [good_test, 'id: r1\n', 'id: nope\nvalid: [a]\ninvalid: [b]\n', f'id: r1\nvalid: {rng.choice(WILD)}\ninvalid: {rng.choice(WILD)}\n',
              'id: r1\nvalid: [1, {a: b}]\ninvalid: [~]\n', '', '- a', 'id: r1\nvalid: []\ninvalid: []\n---\nid: r1\nvalid: [x]\ninvalid: [foo(1,2)]\n',
              'id: r1\nvalid:\n  - "foo(1, 2)"\ninvalid:\n  - "bar()"\n']
@@ -152,7 +170,7 @@ def project_variants(rng):
 def run_into(ctx, rep):
     work = ctx.workdir()
     n_rules = 1500 if ctx.thorough else 220
-    n_proj = 600 if ctx.thorough else 90
+    n_proj = 1200 if ctx.thorough else 240
     base = 7_000_000 + ctx.seed * 10000
     src = os.path.join(work, 'src'); common.write_tree(src, SRC)
     import concurrent.futures as cf
